@@ -3,6 +3,8 @@ From WM Require Import Base.Prelude Base.Count RouterLife.Model RouterLife.Inv R
 From RecordUpdate Require Import RecordSet.
 Import RecordSetNotations.
 
+Lemma sinv_closeErr s b : SInv s -> SInv (s <| closeErr := b |>). Proof. intros I. irrel I. Qed.
+
 (** ** Close, executed by a client thread or by the watcher *)
 Ltac thr_others F :=
   try (intros t'; upds; simpl; auto; try solve [intuition (congruence || discriminate)]);
@@ -364,13 +366,15 @@ Proof.
                         | intros ? ? [X|X]; discriminate | intros; discriminate | intros; discriminate].
     + destruct (hlock s) eqn:HL; [discriminate|]. injection CL as <- <-. now apply k_acquire_thr.
     + destruct (closedF s); injection CL as <- <-.
-      * change (SInv ((set_t (s <| hlock := None |>) t (TClose (KRet true))) <| clock := None |>)).
+      * change (SInv ((set_t (s <| hlock := None |>) t (TClose (KRet (negb (closeErr s))))) <| clock := None |>)).
         apply sinv_clock. eapply k_release_thr; eauto.
       * change (SInv ((set_t s t (TClose KWait)) <| closedF := true |> <| closingCh := true |>)).
         apply sinv_closingCh, sinv_closedF. eapply k_move_thr; eauto.
     + destruct (Nat.eqb (hwg s) 0 && none_inflight s); [|discriminate]. injection CL as <- <-.
       eapply k_move_thr; eauto.
-    + injection CL as <- <-. eapply k_move_thr; eauto.
+    + injection CL as <- <-.
+      change (SInv ((set_t s t (TClose (KFinish false))) <| closeErr := true |>)).
+      apply sinv_closeErr. eapply k_move_thr; eauto.
     + injection CL as <- <-.
       change (SInv ((set_t (s <| hlock := None |>) t (TClose (KRet ok))) <| closedCh := true |> <| clock := None |>)).
       apply sinv_clock, sinv_closedCh. eapply k_release_thr; eauto.
@@ -428,6 +432,7 @@ Proof.
     + destruct (hadded s); [discriminate|]. injection H as <- <-.
       change (SInv ((s <| hadded := n |>) <| wat := WWait |>)). apply sinv_wat_move; [now apply sinv_hadded| simpl; now rewrite E|reflexivity].
     + destruct (closedCh s); [|discriminate]. injection H as <- <-. apply sinv_wat_move; auto. now rewrite E.
+    + destruct (fix15 s && (cctx s || rcancel s)); [|discriminate]. injection H as <- <-. apply sinv_wat_move; auto. now rewrite E.
   - destruct c; try discriminate. destruct (Nat.eqb (hwg s) 0); [|discriminate]. injection H as <- <-.
     apply sinv_wat_move; auto. now rewrite E.
   - destruct c; try discriminate. destruct (clock s); [discriminate|]. injection H as <- <-.
@@ -445,7 +450,9 @@ Proof.
         apply sinv_closingCh, sinv_closedF. eapply k_move_wat; eauto.
     + destruct (Nat.eqb (hwg s) 0 && none_inflight s); [|discriminate]. injection CL as <- <-. injection H as <- <-.
       eapply k_move_wat; eauto.
-    + injection CL as <- <-. injection H as <- <-. eapply k_move_wat; eauto.
+    + injection CL as <- <-. injection H as <- <-.
+      change (SInv ((s <| wat := WClose (KFinish false) |>) <| closeErr := true |>)).
+      apply sinv_closeErr. eapply k_move_wat; eauto.
     + injection CL as <- <-. injection H as <- <-.
       change (SInv ((s <| hlock := None |> <| wat := WDone |>) <| closedCh := true |> <| clock := None |>)).
       apply sinv_clock, sinv_closedCh. eapply k_release_wat; eauto.
@@ -481,5 +488,5 @@ Proof.
   destruct (step s l) as [[s' evs]|] eqn:E; [|now apply IH]. apply IH. eapply step_sinv; eauto.
 Qed.
 
-Theorem reachable_sinv f4 f14 ls : SInv (run (rinit f4 f14) ls).
+Theorem reachable_sinv f4 f14 f15 ls : SInv (run (rinit f4 f14 f15) ls).
 Proof. apply run_sinv, sinv_init. Qed.
